@@ -68,9 +68,11 @@ def gen_script(rng):
         if i == 0 and r < 0.55 or r < 0.22:
             op = rng.choice(["SM", "SU"])
         else:
-            op = rng.choice(["IM", "J", "C", "C", "K", "G", "F", "D", "H1", "H0", "SU", "SM"])
+            op = rng.choice(["IM", "J", "C", "C", "K", "G", "F", "D", "H1", "H0", "SU", "SM", "P"])
         if op in ("SM", "SU"):
-            out.append("%s:%s" % (op, "".join(rng.choice("1110") for _ in range(3))))
+            out.append("%s:%s" % (op, "".join(rng.choice("11102") for _ in range(3))))
+        elif op == "P":
+            out.append("P" + rng.choice("112"))
         elif op in ("K", "G", "F", "D"):
             out.append("%s%d" % (op, rng.randint(0, max(0, ncreate))))
         else:
@@ -89,6 +91,15 @@ FIXED_SCRIPTS = [
     (1, ["C", "SM:111", "K0", "D0", "J", "G0"]),
     (1, ["SM:111", "J", "SM:011", "IM", "J", "IM"]),
     (0, ["SM:111", "H1", "IM", "H1", "J", "IM"]),
+    # a throwing task followed by further tasks in the same round; a task scheduled from inside the result notification
+    (1, ["SU:211", "J", "IM"]),
+    (1, ["SM:121", "SU:211", "J", "IM"]),
+    (1, ["P1", "SU:211", "IM", "J", "IM"]),
+    (1, ["P2", "P1", "SM:112", "J", "IM"]),
+    # set_notification_handler while the worker notifies (probes of the blocked setter come from these)
+    (1, ["SU:111", "H1", "J", "IM"]),
+    (0, ["H1", "SM:121", "H0", "H1", "J", "IM"]),
+    (1, ["P1", "SU:111", "H1", "H1", "J"]),
 ]
 
 
@@ -161,6 +172,23 @@ def oracles(h0, script, obs):
                 bad.append((WINDOW_KEY, "tasks %s scheduled while the worker was exiting were not run when "
                                         "is_maintenance_mode()/join reported maintenance over" % sorted(lost, key=int)))
         since_spawn.append(e)
+    # handler invocations versus set_notification_handler (the python twin of Sched.hstep)
+    nset, inside = 0, False
+    for e in obs:
+        if e.startswith("hin:"):
+            if inside:
+                bad.append(("handler:overlapping-invocations", "a handler invocation began while another was in progress"))
+            if int(e[4:]) != nset:
+                bad.append(("handler:replaced-handler-invoked",
+                            "the handler installed by set_notification_handler call #%s was invoked after call #%d had returned" % (e[4:], nset)))
+            inside = True
+        elif e == "hout":
+            inside = False
+        elif e == "ret:H:0":
+            if inside:
+                bad.append(("handler:invocation-overlaps-setter-return",
+                            "set_notification_handler returned while an invocation of the handler it replaced was still in progress"))
+            nset += 1
     seen, out = set(), []
     for k, w in bad:
         if k not in seen:
@@ -278,6 +306,7 @@ def run(ctx):
     timings["model_enum_s"] = round(time.time() - t0, 1)
     lines = out.split("\n")
     cases = []   # (name, h0, script, schedule, model_obs)
+    probes = []  # schedules ending in a client step the model refuses (blocked set_notification_handler)
     li = 0
     for h, s in scripts:
         while not lines[li].startswith("END"):
@@ -286,6 +315,9 @@ def run(ctx):
             if l.startswith("S "):
                 sch, _, ob = l[2:].partition(" | ")
                 cases.append(("enum", h, s, sch.strip(), ob.strip()))
+            elif l.startswith("B "):
+                sch, _, ob = l[2:].partition(" | ")
+                probes.append(("probe", h, s, sch.strip(), ob.strip()))
         li += 1
     for (name, h, s, sch) in witnesses:
         ob = lines[li].strip()
@@ -294,6 +326,10 @@ def run(ctx):
             cases.append(("witness:" + name, h, s, sch, ob))
         else:
             ctx.notes.append("witness %s is not a schedule of the model built from the current table (%s) - not replayed" % (name, ob))
+    nprobe = 48 if ctx.tier == "quick" else 240
+    if len(probes) > nprobe:
+        probes = rng.sample(probes, nprobe)
+    cases += probes
     work = ctx.scratch("c15")
     t_h = time.time()
     nproc = max(1, min(8, len(cases) // 200 + 1))
@@ -339,7 +375,13 @@ def run(ctx):
         if ob.startswith("STUCK"):
             stuck.append((c, ob))
             continue
-        if ob != mob:
+        if name == "probe":
+            # the model: the observations of the prefix, then the client's call must wait
+            toks = ob.split()
+            pre = mob.split()
+            if toks[:len(pre)] != pre or len(toks) <= len(pre) or toks[len(pre)] != "blocked":
+                mism.append((c, ob))
+        elif ob != mob:
             mism.append((c, ob))
         for key, what in oracles(h, s, ob.split()):
             if key == WINDOW_KEY and ob != mob:
@@ -371,6 +413,9 @@ def run(ctx):
         "correspondence_mismatches": len(mism), "stuck": len(stuck),
         "oracle_hits": {k2: len(v) for k2, v in per_key.items()},
         "witnesses_replayed": [c[0] for c in cases if c[0].startswith("witness:")],
+        "blocked_setter_probes": len(probes),
+        "scripts_with_throwing_task": sum(1 for h, s in scripts if any("2" in c[2:] for c in s if c[:2] in ("SM", "SU"))),
+        "scripts_with_handler_scheduled_task": sum(1 for h, s in scripts if any(c.startswith("P") for c in s)),
     })
 
     # --- ThreadSanitizer stress (support for race_free; the search for a racing input)
